@@ -162,15 +162,29 @@ theorem service_exit (w : World) (p : SPt) (hw : After w) : serviceRun w 3 p = .
      closeFinish, dlcSendLoop, dlcSendTail, Sock.isEst, Sock.estOrCw, withS, tcoClose, callTimeout, List.headD,
      EBADF, EINVAL, EPIPE, EMSGSIZE, EOPNOTSUPP, ENOTCONN, ESHUTDOWN]
 
-theorem loop_terminates (r : Role) (c : Cause) : (loopEnd r c).terminateCalled = true := by
-  cases c <;> rfl
+theorem loop_terminates (r : Role) (pt : LoopPt) (c : Cause) : (loopEnd r pt c).terminateCalled = true := by
+  cases c <;> cases pt <;> rfl
 
-theorem connect_returns (r : Role) (c : Cause)
+theorem connect_returns (r : Role) (pt : LoopPt) (c : Cause)
     (h : c ≠ .ioError ∧ c ≠ .keyAgreementError ∧ c ≠ .decryptionError ∧ c ≠ .encryptionError) :
-    connectEnd r c = .returns ∨ (c = .otherException ∧ connectEnd r c = .reraises) := by
-  cases c <;> simp_all [connectEnd, loopEnd]
+    connectEnd r pt c = .returns ∨ (c = .otherException ∧ connectEnd r pt c = .reraises) := by
+  cases c <;> simp_all [connectEnd, loopEnd, leaveOf]
 
-theorem connect_systemexit : connectEnd .initiator .ioError = .raisesSystemExit ∧
-    connectEnd .target .decryptionError = .raisesSystemExit := by decide
+theorem connect_systemexit : connectEnd .initiator .established .ioError = .raisesSystemExit ∧
+    connectEnd .target .dps .decryptionError = .raisesSystemExit := by decide
+
+theorem shut_mem (a : Nat) (ha : a < 64) : ((List.range 64).reverse.map TStep.shut).contains (.shut a) = true := by
+  simp only [List.contains_iff_mem, List.mem_map, List.mem_reverse, List.mem_range]
+  exact ⟨a, ha, rfl⟩
+
+/-- a socket bound at any moment of terminate() is refused or is shut down by the rest of the loop -/
+theorem late_bind_safe (k a : Nat) (ha : a < 64) : lateBind termSteps k a ≠ .leaked := by
+  cases k with
+  | zero =>
+    have h := shut_mem a ha
+    simp [lateBind, termSteps, List.contains_cons, h] <;> exact ha
+  | succ n => simp [lateBind, termSteps]
+
+theorem late_bind_flag_last_leaks : lateBind termStepsFlagLast 1 63 = .leaked := by decide
 
 end NfcVerif.Term
